@@ -17,6 +17,14 @@ structure OnlySlot (w w' : W) (s : Nat) (new : Slot) (drops moved : List Nat) : 
   nextId : w'.nextId = w.nextId
   acct : w'.acct = w.acct
 
+/-- the same without a statement about the arena (operations of `Vec`, which may consult the arena) -/
+structure OnlySlotV (w w' : W) (s : Nat) (new : Slot) (drops moved : List Nat) : Prop where
+  slots : w'.slots = w.slots.set s new
+  drops : w'.drops = w.drops ++ drops
+  moved : w'.moved = w.moved ++ moved
+  created : w'.created = w.created
+  nextId : w'.nextId = w.nextId
+
 /-! ## dropping -/
 
 /-- `box_drop`: dropping a `Box<T>` runs the value's destructor exactly once and leaves the arena alone -/
@@ -171,13 +179,12 @@ theorem slice_to_arr_spec (z : Bool) (env : Env) (w : W) (s n : Nat) (cs : List 
   by_cases hl : cs.length = n <;>
   (refine ⟨⟨?_, ?_, ?_, ?_, ?_, ?_⟩, ?_, ?_⟩ <;> simp [step, effOf, h, applyEff, evtOf, Eff.alloc, hl, hn])
 
-/-- `Vec::into_boxed_slice` / `From<Vec>`: exactly the `len` initialised elements, in order, no drop, no arena call -/
+/-- `Vec::into_boxed_slice` / `From<Vec>`: exactly the `len` initialised elements, in order, no drop, nothing read out -/
 theorem into_boxed_slice_spec (z : Bool) (env : Env) (w : W) (s : Nat) (cs : List Cell) (cap : Nat)
     (h : w.slots[s]? = some (.vec cs cap)) :
-    OnlySlot w (step z env (.intoBoxedSlice s) w) s (.slice cs (some cap)) [] [] ∧
-    OnlySlot w (step z env (.fromVec s) w) s (.slice cs (some cap)) [] [] ∧
-    evtOf env (effOf z (.intoBoxedSlice s) w).1 = 0 := by
-  refine ⟨⟨?_, ?_, ?_, ?_, ?_, ?_⟩, ⟨?_, ?_, ?_, ?_, ?_, ?_⟩, ?_⟩ <;> simp [step, effOf, h, applyEff, evtOf, Eff.alloc]
+    OnlySlotV w (step z env (.intoBoxedSlice s) w) s (.slice cs (some cap)) [] [] ∧
+    OnlySlotV w (step z env (.fromVec s) w) s (.slice cs (some cap)) [] [] := by
+  refine ⟨⟨?_, ?_, ?_, ?_, ?_⟩, ⟨?_, ?_, ?_, ?_, ?_⟩⟩ <;> simp [step, effOf, h, applyEff]
 
 theorem slice_to_vec_spec (env : Env) (w : W) (s : Nat) (cs : List Cell) (cap : Nat)
     (h : w.slots[s]? = some (.slice cs (some cap))) :
@@ -194,10 +201,10 @@ theorem from_iter_spec (z : Bool) (env : Env) (w : W) (s : Nat) (xs : List Nat) 
 
 /-! ## the arena is touched only by constructors (and by dropping an arena `Vec`) -/
 
-/-- operations that call `Bump::alloc*` -/
+/-- operations that call `Bump::alloc*`, or are methods of `Vec` that may consult the arena -/
 def Op.entersArena : Op → Bool
   | .new .. | .pin .. | .newArr .. | .fromIter .. | .vec .. | .newAny .. | .newFn .. | .newStr ..
-  | .iterProbe .. | .pollProbe _ | .hasherProbe _ => true
+  | .intoBoxedSlice _ | .fromVec _ | .iterProbe .. | .pollProbe _ | .hasherProbe _ => true
   | _ => false
 
 theorem acct_frame (z : Bool) (env : Env) (op : Op) (w : W) (h : (effOf z op w).1.alloc = false) :
